@@ -285,6 +285,31 @@ Definition header_read (b : bytes) : outcome (header_t * bytes) unit :=
   match dec c_header b with Some x => Ok x | None => Err tt end.
 Definition header_write (h : header_t) : bytes := enc c_header h.
 
+(** * zcash_encoding: [CompactSize::read_t::<T>] and the counted-vector readers
+    [read_t] is [read] (canonical, at most MAX_COMPACT_SIZE) followed by the conversion to the
+    target integer type.  [Vector::read / read_collected / read_collected_mut] take their element
+    count through [read_t::<usize>], so the bound applies to every vector ([c_vec MX]). *)
+Definition target_bits (w : N) : N := if w =? 0 then 64 else w.   (* 0 = usize *)
+Definition c_read_t (w : N) : codec N := c_refine (c_compact MX) (fun n => n <? 2 ^ target_bits w).
+
+Definition cs_width (f : N) : N :=
+  if f <? 253 then 1 else if f =? 253 then 3 else if f =? 254 then 5 else 9.
+
+(** A vector of u8 elements read from the stream [b ++ 0^fill] (the harness's reader delivers the
+    bytes of [b] and then [fill] zero bytes): number of elements and bytes taken on success,
+    bytes taken on failure.  Only the first bytes are materialised, so [fill] may be huge. *)
+Definition stream_head (b : bytes) (fill : N) : bytes := b ++ repeat 0 (N.to_nat (N.min fill 9)).
+Definition vecfill_model (b : bytes) (fill : N) : outcome (N * N) N :=
+  let T := nlen b + fill in
+  let s9 := stream_head b fill in
+  match dec (c_compact MX) s9 with
+  | Some (n, r) => let k := nlen s9 - nlen r in if n <=? T - k then Ok (n, k + n) else Err T
+  | None => Err (match s9 with [] => 0 | f :: _ => N.min T (cs_width f) end)
+  end.
+(** [Array::read] with an explicit count: no prefix, no bound *)
+Definition arrfill_model (count : N) (b : bytes) (fill : N) : outcome (N * N) N :=
+  let T := nlen b + fill in if count <=? T then Ok (count, count) else Err T.
+
 (** * Context and identifiers
     [Transaction::read(reader, ctx)] stores the caller's branch id in a v1–v4 transaction (it is
     not on the wire) and the encoded one in v5/v6.  The v1–v4 txid is SHA-256d of the encoding
